@@ -592,6 +592,22 @@ func (c *Ctx) compiledSpec(sf *SpecFun) *compiledSpec {
 				kw = "define-fun-rec"
 			}
 			cs.def = fmt.Sprintf("(%s %s (%s) %s %s)", kw, sf.Name, strings.Join(ps, " "), cs.ret.sort, body.term)
+			if kw == "define-fun" && !sf.Opaque {
+				macroSpecs[sf.Name] = true
+			}
+			if sf.Opaque {
+				var sorts, names []string
+				for _, h := range hs {
+					sorts = append(sorts, "(Array Ref "+h+")")
+					names = append(names, "hp_"+heapName(h))
+				}
+				for i, p := range sf.Params {
+					sorts = append(sorts, cs.params[i].sort)
+					names = append(names, "a_"+p.Name)
+				}
+				appl := app(sf.Name, names...)
+				cs.def = fmt.Sprintf("(declare-fun %s (%s) %s)\n(assert (forall (%s) (! (= %s %s) :pattern (%s))))", sf.Name, strings.Join(sorts, " "), cs.ret.sort, strings.Join(ps, " "), appl, body.term, appl)
+			}
 			cs.done = true
 			c.specOrder = append(c.specOrder, sf.Name)
 			return cs
@@ -611,7 +627,7 @@ func (c *Ctx) lemmaFormula(l *Lemma, suffix string) (binders []string, req, ens 
 	saved := c.curFile
 	c.curFile = file
 	defer func() { c.curFile = saved }()
-	env := &Env{c: c, specMode: true, heapParams: map[string]bool{}, vars: map[string]TVal{}, pkg: pkg, file: file}
+	env := &Env{c: c, specMode: true, heapParams: map[string]bool{}, vars: map[string]TVal{}, pkg: pkg, file: file, twoHeaps: true}
 	for _, p := range l.Params {
 		ty := c.specSort(p.Sort, pkg)
 		n := "m_" + p.Name + suffix
@@ -635,7 +651,12 @@ func (c *Ctx) lemmaFormula(l *Lemma, suffix string) (binders []string, req, ens 
 	}
 	sort.Strings(hs)
 	for _, h := range hs {
-		binders = append(binders, fmt.Sprintf("(hp_%s (Array Ref %s))", heapName(h), h))
+		if strings.HasPrefix(h, "old:") {
+			h = h[4:]
+			binders = append(binders, fmt.Sprintf("(hpo_%s (Array Ref %s))", heapName(h), h))
+		} else {
+			binders = append(binders, fmt.Sprintf("(hp_%s (Array Ref %s))", heapName(h), h))
+		}
 	}
 	if len(ts) > 0 {
 		trig = ":pattern (" + strings.Join(ts, " ") + ")"
@@ -643,13 +664,33 @@ func (c *Ctx) lemmaFormula(l *Lemma, suffix string) (binders []string, req, ens 
 	return binders, and(rs...), and(es...), trig
 }
 
+// lemmaAxiom: the lemma as an assumption.  Heap-reading lemmas are NOT
+// quantified over heap arrays (quantifiers over array sorts made z3 5.1.0
+// return a wrong `unsat`, see DESIGN.md section 9); they are emitted as a
+// template  ;;HEAPLEMMA sort|oldsort|text  instantiated per query with the
+// heap terms that occur in it.
 func (c *Ctx) lemmaAxiom(l *Lemma) string {
 	b, req, ens, trig := c.lemmaFormula(l, "")
 	body := implies(req, ens)
 	if trig != "" {
 		body = "(! " + body + " " + trig + ")"
 	}
-	return fmt.Sprintf("(assert (forall (%s) %s)) ; lemma %s", strings.Join(b, " "), body, l.Name)
+	var plain, heaps []string
+	for _, bd := range b {
+		if strings.HasPrefix(bd, "(hp_") || strings.HasPrefix(bd, "(hpo_") {
+			heaps = append(heaps, strings.Fields(strings.Trim(bd, "()"))[0])
+		} else {
+			plain = append(plain, bd)
+		}
+	}
+	if len(heaps) == 0 {
+		return fmt.Sprintf("(assert (forall (%s) %s)) ; lemma %s", strings.Join(b, " "), body, l.Name)
+	}
+	f := body
+	if len(plain) > 0 {
+		f = fmt.Sprintf("(forall (%s) %s)", strings.Join(plain, " "), body)
+	}
+	return ";;HEAPLEMMA " + strings.Join(heaps, ",") + "|(assert " + f + ") ; lemma " + l.Name
 }
 
 // lemmaObligations: the proof obligation of a lemma.  With `induction k` the
@@ -682,7 +723,7 @@ func (c *Ctx) lemmaObligations(name string) ([]*Obligation, error) {
 		ibody := implies(and(app("<=", "0", kih), app("<", kih, k), ireq), iens)
 		// heaps are shared (not re-quantified) in the hypothesis
 		for _, bd := range ib {
-			if !strings.HasPrefix(bd, "(hp_") {
+			if !strings.HasPrefix(bd, "(hp_") && !strings.HasPrefix(bd, "(hpo_") {
 				kept = append(kept, bd)
 			}
 		}
@@ -697,6 +738,7 @@ func (c *Ctx) lemmaObligations(name string) ([]*Obligation, error) {
 }
 
 type preItem struct {
+	name    string
 	trig    []string // spec symbols in the triggers (lemmas): all must be needed for the lemma to be usable
 	text    string
 	defines string   // spec symbol defined (for spec functions)
@@ -705,6 +747,7 @@ type preItem struct {
 }
 
 type Prelude struct {
+	post  string // heap-lemma instances of the last For() call (must follow the query's declarations)
 	base  string
 	items []preItem
 	names []string // all spec symbols
@@ -794,7 +837,7 @@ func (c *Ctx) prelude() *Prelude {
 		p.items = append(p.items, preItem{text: a, uses: c.specSymbolsIn(a)})
 	}
 	for i, l := range lemAx {
-		it := preItem{text: l, uses: c.specSymbolsIn(l), lemma: true}
+		it := preItem{text: l, uses: c.specSymbolsIn(l), lemma: true, name: c.lemmas[i].Name}
 		if j := strings.Index(l, ":pattern"); j >= 0 && len(c.lemmas[i].Triggers) > 0 {
 			it.trig = c.specSymbolsIn(l[j:])
 		}
@@ -805,7 +848,14 @@ func (c *Ctx) prelude() *Prelude {
 
 // For selects the prelude items relevant to a query: spec functions it
 // mentions (transitively), and the axioms / lemmas that talk about them.
-func (p *Prelude) For(query string, noLemmas bool) string {
+func (p *Prelude) For(query string, noLemmas bool, uses []string) (string, string) {
+	usesSet := map[string]bool{}
+	for _, u := range uses {
+		usesSet[u] = true
+	}
+	pp := *p
+	p = &pp
+	p.post = ""
 	needed := map[string]bool{}
 	for _, it := range p.items {
 		if it.defines != "" && containsToken(query, it.defines) {
@@ -820,7 +870,9 @@ func (p *Prelude) For(query string, noLemmas bool) string {
 				continue
 			}
 			take := false
-			if it.defines != "" {
+			if it.lemma {
+				take = usesSet[it.name]
+			} else if it.defines != "" {
 				take = needed[it.defines]
 			} else if len(it.trig) > 0 {
 				take = true
@@ -853,9 +905,138 @@ func (p *Prelude) For(query string, noLemmas bool) string {
 	var b strings.Builder
 	b.WriteString(p.base)
 	for i, it := range p.items {
-		if include[i] {
-			b.WriteString(it.text + "\n")
+		if !include[i] {
+			continue
+		}
+		if strings.HasPrefix(it.text, ";;HEAPLEMMA ") {
+			p.post += expandHeapLemma(it.text, query)
+			continue
+		}
+		b.WriteString(it.text + "\n")
+	}
+	return b.String(), p.post
+}
+
+var heapTermRe = regexp.MustCompile(`H_[A-Za-z0-9_.]+![0-9]+`)
+
+// expandHeapLemma instantiates a heap-reading lemma with every combination of
+// heap terms (of the right sort) occurring in the query.
+func expandHeapLemma(tmpl, query string) string {
+	rest := strings.TrimPrefix(tmpl, ";;HEAPLEMMA ")
+	i := strings.Index(rest, "|")
+	vars, text := strings.Split(rest[:i], ","), rest[i+1:]
+	seen := map[string]bool{}
+	bySort := map[string][]string{}
+	for _, t := range heapTermRe.FindAllString(query, -1) {
+		if seen[t] {
+			continue
+		}
+		seen[t] = true
+		// H_Int_h!15 -> sort key H_Int ; match by longest variable-sort prefix
+		bySort[t] = nil
+	}
+	var terms []string
+	for t := range seen {
+		terms = append(terms, t)
+	}
+	sort.Strings(terms)
+	cands := make([][]string, len(vars))
+	for vi, v := range vars {
+		hs := strings.TrimPrefix(strings.TrimPrefix(v, "hpo_"), "hp_") // e.g. H_Int
+		for _, t := range terms {
+			name := t[:strings.Index(t, "!")]
+			if name == hs || strings.HasPrefix(name, hs+"_") {
+				// exclude longer sort names sharing the prefix (H_Int vs H_Int_x is ambiguous only for suffixes we generate: _h,_c,_cp,_ap)
+				suf := strings.TrimPrefix(name, hs)
+				if suf == "" || suf == "_h" || suf == "_c" || suf == "_cp" || suf == "_ap" {
+					cands[vi] = append(cands[vi], t)
+				}
+			}
+		}
+		if len(cands[vi]) == 0 {
+			return ""
 		}
 	}
+	// keep only heap terms that occur as an argument of one of the lemma's spec functions
+	var specNames []string
+	for _, m := range regexp.MustCompile(`\(([A-Za-z_][A-Za-z0-9_]*) hpo?_`).FindAllStringSubmatch(text, -1) {
+		specNames = append(specNames, m[1])
+	}
+	used := func(t string) bool {
+		for _, sn := range specNames {
+			if regexp.MustCompile(`\(` + sn + `( H_[^ ()]+)* ` + regexp.QuoteMeta(t) + `[ )]`).MatchString(query) {
+				return true
+			}
+		}
+		return len(specNames) == 0
+	}
+	for vi := range cands {
+		var kept []string
+		for _, t := range cands[vi] {
+			if used(t) {
+				kept = append(kept, t)
+			}
+		}
+		cands[vi] = kept
+		if len(kept) == 0 {
+			return ""
+		}
+	}
+	var out strings.Builder
+	var rec func(vi int, cur string)
+	n := 0
+	rec = func(vi int, cur string) {
+		if n > 400 {
+			return
+		}
+		if vi == len(vars) {
+			if !strings.Contains(cur, "hp_") && !strings.Contains(cur, "hpo_") && !heapLemmaTrivial(cur) {
+				out.WriteString(cur + "\n")
+				n++
+			}
+			return
+		}
+		for _, t := range cands[vi] {
+			rec(vi+1, replaceToken(cur, vars[vi], t))
+		}
+	}
+	rec(0, text)
+	return out.String()
+}
+
+func replaceToken(s, tok, with string) string {
+	var b strings.Builder
+	for i := 0; i < len(s); {
+		j := strings.Index(s[i:], tok)
+		if j < 0 {
+			b.WriteString(s[i:])
+			break
+		}
+		j += i
+		end := j + len(tok)
+		before := j == 0 || strings.ContainsRune(" ()", rune(s[j-1]))
+		after := end == len(s) || strings.ContainsRune(" ()", rune(s[end]))
+		b.WriteString(s[i:j])
+		if before && after {
+			b.WriteString(with)
+		} else {
+			b.WriteString(tok)
+		}
+		i = end
+	}
 	return b.String()
+}
+
+// an instance relating a heap to itself says nothing
+func heapLemmaTrivial(inst string) bool {
+	ts := heapTermRe.FindAllString(inst, -1)
+	if len(ts) == 0 {
+		return false
+	}
+	for _, t := range ts[1:] {
+		if t != ts[0] {
+			return false
+		}
+	}
+	return true
 }
